@@ -50,8 +50,97 @@ fn soup(r: &mut Rng) -> String {
     s
 }
 
+const KEYWORDS: &[&str] = &["struct", "enum", "service", "fn", "event", "const", "newtype", "import", "required", "fallback", "uuid", "version", "args", "ok", "err",
+    "bool", "u8", "i8", "u16", "i16", "u32", "i32", "u64", "i64", "f32", "f64", "string", "object_id", "service_id", "value", "option", "box", "vec", "bytes", "map", "set",
+    "sender", "receiver", "lifetime", "unit", "result"];
+
+/// One identifier of the file renamed throughout (whole words only): the schema stays as valid as it was.
+fn rename(r: &mut Rng, src: &str) -> String {
+    let cs: Vec<char> = src.chars().collect();
+    let is_w = |c: char| c.is_ascii_alphanumeric() || c == '_';
+    let mut words: Vec<String> = vec![];
+    let mut i = 0;
+    let mut in_comment = false;
+    while i < cs.len() {
+        if cs[i] == '\n' { in_comment = false; }
+        if cs[i] == '/' && i + 1 < cs.len() && cs[i + 1] == '/' { in_comment = true; }
+        if !in_comment && is_w(cs[i]) && (i == 0 || !is_w(cs[i - 1])) {
+            let mut j = i;
+            while j < cs.len() && is_w(cs[j]) { j += 1; }
+            let w: String = cs[i..j].iter().collect();
+            // not numbers, not uuid groups, not keywords
+            if !w.chars().next().unwrap().is_ascii_digit() && !KEYWORDS.contains(&w.as_str()) && !(i > 0 && cs[i - 1] == '-') && !(j < cs.len() && cs[j] == '-') {
+                words.push(w);
+            }
+            i = j;
+        } else {
+            i += 1;
+        }
+    }
+    words.sort();
+    words.dedup();
+    if words.is_empty() {
+        return src.to_string();
+    }
+    let old = words[r.below(words.len() as u64) as usize].clone();
+    let new = (*r.pick(&["_", "__", "___", "_1", "x_", "_x_", "A", "a", "Self_", "r#x"])).to_string();
+    if words.contains(&new) {
+        return src.to_string();
+    }
+    let mut out = String::new();
+    let mut i = 0;
+    while i < cs.len() {
+        if is_w(cs[i]) && (i == 0 || !is_w(cs[i - 1])) {
+            let mut j = i;
+            while j < cs.len() && is_w(cs[j]) { j += 1; }
+            let w: String = cs[i..j].iter().collect();
+            if w == old { out.push_str(&new) } else { out.push_str(&w) }
+            i = j;
+        } else {
+            out.push(cs[i]);
+            i += 1;
+        }
+    }
+    out
+}
+
+/// A handful of definitions that refer to each other at random: cycles through newtypes, structs and enums, with
+/// and without indirection, used as map and set keys (what the validator's recursion and key-type checks walk).
+fn type_graph(r: &mut Rng) -> String {
+    let n = 2 + r.below(5) as usize;
+    let name = |i: usize| format!("T{}", i);
+    let mut o = String::new();
+    let ty = |r: &mut Rng| -> String {
+        let t = |r: &mut Rng| if r.chance(1, 5) { (*r.pick(&["u32", "string", "uuid", "bool", "i8", "f64", "bytes", "value", "object_id"])).to_string() } else if r.chance(1, 20) { name(n) } else { name(r.below(n as u64) as usize) };
+        match r.below(9) {
+            0 | 1 | 2 => t(r),
+            3 => format!("option<{}>", t(r)),
+            4 => format!("box<{}>", t(r)),
+            5 => format!("vec<{}>", t(r)),
+            6 => format!("map<{} -> {}>", t(r), t(r)),
+            7 => format!("set<{}>", t(r)),
+            _ => format!("result<{}, {}>", t(r), t(r)),
+        }
+    };
+    for i in 0..n {
+        match r.below(4) {
+            0 | 1 => o.push_str(&format!("newtype {} = {};\n", name(i), ty(r))),
+            2 => o.push_str(&format!("struct {} {{ a @ 1 = {}; required b @ 2 = {}; }}\n", name(i), ty(r), ty(r))),
+            _ => o.push_str(&format!("enum {} {{ A @ 1 = {}; B @ 2; }}\n", name(i), ty(r))),
+        }
+    }
+    o.push_str(&format!("struct User {{ k @ 1 = set<{}>; m @ 2 = map<{} -> {}>; v @ 3 = {}; }}\n", name(r.below(n as u64) as usize), name(r.below(n as u64) as usize), ty(r), ty(r)));
+    if r.chance(1, 2) {
+        o.push_str(&format!("service S {{ uuid = 3f0623d7-8b09-4fcd-b32e-0b292b0b1f1d; version = 1; fn f @ 1 {{ args = {}; ok = {}; }} event e @ 1 = {}; }}\n", ty(r), ty(r), ty(r)));
+    }
+    o
+}
+
 fn mutate(r: &mut Rng, files: &[String]) -> String {
     let base = files[r.below(files.len() as u64) as usize].clone();
+    if r.chance(1, 3) {
+        return rename(r, &base);
+    }
     let mut s = base;
     for _ in 0..(1 + r.below(3)) {
         match r.below(4) {
@@ -82,6 +171,32 @@ fn mutate(r: &mut Rng, files: &[String]) -> String {
         }
     }
     s
+}
+
+/// The grammar model knows ASCII identifiers only (`XID_START` / `XID_CONTINUE` are not modelled): a source with a
+/// non-ASCII letter or digit outside comments and string literals is not put to it.
+fn beyond_model(src: &str) -> bool {
+    let cs: Vec<char> = src.chars().collect();
+    let mut i = 0;
+    while i < cs.len() {
+        if cs[i] == '/' && i + 1 < cs.len() && cs[i + 1] == '/' {
+            while i < cs.len() && cs[i] != '\n' { i += 1; }
+        } else if cs[i] == '"' {
+            i += 1;
+            while i < cs.len() && cs[i] != '"' && cs[i] != '\n' {
+                if cs[i] == '\\' { i += 1; }
+                i += 1;
+            }
+            i += 1;
+        } else {
+            if !cs[i].is_ascii() && (cs[i].is_alphanumeric() || !cs[i].is_whitespace()) {
+                // letters, digits, combining marks, symbols: anything that might continue an identifier
+                return true;
+            }
+            i += 1;
+        }
+    }
+    false
 }
 
 fn imports_of(src: &str) -> Vec<String> {
@@ -244,7 +359,8 @@ fn main() {
     }
     for _ in 0..(if replaying { 0 } else { cases }) {
         let mut r = rng.fork();
-        match r.below(10) {
+        match r.below(11) {
+            10 => sources.push((type_graph(&mut r), "type-graph")),
             0 | 1 => sources.push((soup(&mut r), "soup")),
             2 | 3 | 4 => sources.push((mutate(&mut r, &files), "mutation")),
             _ => {
@@ -256,6 +372,28 @@ fn main() {
                 sources.push((src, "adversarial"));
             }
         }
+    }
+    // a front end that does not come back: a watchdog reports the input it is stuck on and ends the run
+    let current: std::sync::Arc<std::sync::Mutex<(std::time::Instant, String, usize)>> =
+        std::sync::Arc::new(std::sync::Mutex::new((std::time::Instant::now(), String::new(), 0)));
+    {
+        let current = current.clone();
+        let outdir = outdir.clone();
+        std::thread::spawn(move || loop {
+            std::thread::sleep(std::time::Duration::from_millis(500));
+            let (since, ctx, line) = {
+                let g = current.lock().unwrap();
+                (g.0, g.1.clone(), g.2)
+            };
+            if !ctx.is_empty() && since.elapsed().as_secs() >= 30 {
+                use std::io::Write as _;
+                if let Ok(mut f) = std::fs::OpenOptions::new().append(true).open(format!("{}/oracle.txt", outdir)) {
+                    let _ = writeln!(f, "FAIL C17 line={} the front end did not come back within 30 s input={}", line, ctx);
+                }
+                let _ = std::fs::write(format!("{}/stats.json", outdir), "{\"lines\": 0, \"oracle_fails\": 1, \"cases\": 0, \"samples\": [], \"distribution\": {\"did-not-terminate\": 1}}\n");
+                std::process::exit(0);
+            }
+        });
     }
     for (idx, (src, kind)) in sources.iter().enumerate() {
         let mut r = rng.fork();
@@ -276,10 +414,15 @@ fn main() {
         let h = hexs(src);
         let ctx = format!("kind={} imports=[{}] source={}", kind, provided.iter().map(|(n, s)| format!("{}:{}", n, hexs(s))).collect::<Vec<_>>().join(","), h);
         let _ = aldrin_parser::verif_hooks::take_linecol_log();
+        req.flush().unwrap();
+        rust.flush().unwrap();
+        oracle.flush().unwrap();
+        *current.lock().unwrap() = (std::time::Instant::now(), ctx.clone(), lines);
         let first = catch_unwind(AssertUnwindSafe(|| run_pipeline(src, &provided)));
         let log = aldrin_parser::verif_hooks::take_linecol_log();
         let second = catch_unwind(AssertUnwindSafe(|| run_pipeline(src, &provided)));
         let _ = aldrin_parser::verif_hooks::take_linecol_log();
+        current.lock().unwrap().1.clear();
         *dist.entry(format!("kind.{}", kind)).or_insert(0) += 1;
         match (&first, &second) {
             (Ok(a), Ok(b)) => {
@@ -317,7 +460,12 @@ fn main() {
                     *dist.entry("broken-doc-link-warnings".into()).or_insert(0) += 1;
                 }
                 writeln!(req, "sast {}", h).unwrap();
-                writeln!(rust, "{}", match &a.ast { Some(d) => format!("ok {}", d), None => "err".to_string() }).unwrap();
+                if beyond_model(src) {
+                    writeln!(rust, "skipped").unwrap();
+                    *dist.entry("sast-skipped-non-ascii".into()).or_insert(0) += 1;
+                } else {
+                    writeln!(rust, "{}", match &a.ast { Some(d) => format!("ok {}", d), None => "err".to_string() }).unwrap();
+                }
                 lines += 1;
                 if samples.len() < 6 && lines % 131 == 7 && src.len() < 200 {
                     samples.push(format!("{:?} => {} errors, {} warnings", src, a.errors.len(), a.warnings.len()));
